@@ -51,7 +51,7 @@ func genC12(rt *rapid.T, maxWidth int) clientCase {
 			case 3:
 				c.Ops = append(c.Ops, hop{Op: "garbage", Junk: "000100042112a4425a5a5a5a5a5a5a5a5a5a0000ffff"})
 			}
-			c.Ops = append(c.Ops, hop{Op: "respond", ID: base + i, Size: rapid.SampledFrom([]int{0, 100, 1024}).Draw(rt, "rsize")})
+			c.Ops = append(c.Ops, hop{Op: "respond", ID: base + i, Size: rapid.SampledFrom([]int{0, 20, 20, 100, 1024}).Draw(rt, "rsize")})
 		}
 	}
 
